@@ -98,6 +98,7 @@ type spanBatch struct {
 	twin      bool
 	linkTS    bool
 	nilRes    bool
+	nils      []int // positions (in the exported slice) of nil ReadOnlySpans: the code skips them
 }
 
 func genSpanBatch(r *vgen.Rand, tiny bool) spanBatch {
@@ -109,6 +110,14 @@ func genSpanBatch(r *vgen.Rand, tiny bool) spanBatch {
 	if tiny {
 		n = r.Range(1, 3)
 	}
+	if r.Chance(1, 60) {
+		n = 0 // an empty batch: nothing is uploaded
+	}
+	if r.Chance(1, 12) {
+		for j, k := 0, r.Range(1, 3); j < k; j++ {
+			b.nils = append(b.nils, r.Intn(n+1+j))
+		}
+	}
 	var traceIDs []trace.TraceID
 	for i := 0; i < 3; i++ {
 		traceIDs = append(traceIDs, genTraceID(r))
@@ -118,6 +127,9 @@ func genSpanBatch(r *vgen.Rand, tiny bool) spanBatch {
 		st := tracetest.SpanStub{
 			Name:     vgen.Pick(r, []string{"op", "GET /users/{id}", "", "SELECT", "süß", "Recv.Msg"}),
 			SpanKind: trace.SpanKind(r.Intn(6)),
+		}
+		if r.Chance(1, 40) {
+			st.SpanKind = trace.SpanKind(vgen.Pick(r, []int{6, 99})) // outside the guard: the switch's default
 		}
 		st.SpanContext = trace.NewSpanContext(trace.SpanContextConfig{TraceID: vgen.Pick(r, traceIDs), SpanID: genSpanID(r, i+1),
 			TraceFlags: trace.TraceFlags(r.Intn(2)), TraceState: mustTS(vgen.Pick(r, traceStates)), Remote: r.Chance(1, 8)})
@@ -153,6 +165,9 @@ func genSpanBatch(r *vgen.Rand, tiny bool) spanBatch {
 			st.Links = append(st.Links, tracesdk.Link{SpanContext: trace.NewSpanContext(cfg), Attributes: genAttrs(r, 3, false), DroppedAttributeCount: genCount(r)})
 		}
 		st.Status = tracesdk.Status{Code: codes.Code(r.Intn(3))}
+		if r.Chance(1, 40) {
+			st.Status.Code = codes.Code(vgen.Pick(r, []int{3, 7})) // outside the guard: the switch's default
+		}
 		if st.Status.Code == codes.Error || r.Chance(1, 6) {
 			st.Status.Description = vgen.Pick(r, []string{"", "boom", "deadline exceeded", "Fehler: ü"})
 		}
@@ -244,6 +259,8 @@ type traceRig struct {
 	wireExp    *otlptrace.Exporter
 	httpExp    *otlptrace.Exporter
 	grpcExp    *otlptrace.Exporter
+	httpExpZ   *otlptrace.Exporter // gzip, endpoint given as URL
+	grpcExpZ   *otlptrace.Exporter // gzip, endpoint given as URL
 	httpC      *httpCollector
 	grpcC      *grpcCollector
 }
@@ -262,6 +279,15 @@ func newTraceRig(ctx context.Context, hc *httpCollector, gc *grpcCollector) (*tr
 		otlptracegrpc.WithRetry(otlptracegrpc.RetryConfig{Enabled: false}), otlptracegrpc.WithTimeout(20*time.Second))); err != nil {
 		return nil, err
 	}
+	if t.httpExpZ, err = otlptrace.New(ctx, otlptracehttp.NewClient(otlptracehttp.WithEndpointURL("http://"+hc.addr()+"/v1/traces"),
+		otlptracehttp.WithCompression(otlptracehttp.GzipCompression),
+		otlptracehttp.WithRetry(otlptracehttp.RetryConfig{Enabled: false}), otlptracehttp.WithTimeout(20*time.Second))); err != nil {
+		return nil, err
+	}
+	if t.grpcExpZ, err = otlptrace.New(ctx, otlptracegrpc.NewClient(otlptracegrpc.WithEndpointURL("http://"+gc.addr()), otlptracegrpc.WithCompressor("gzip"),
+		otlptracegrpc.WithRetry(otlptracegrpc.RetryConfig{Enabled: false}), otlptracegrpc.WithTimeout(20*time.Second))); err != nil {
+		return nil, err
+	}
 	return t, nil
 }
 
@@ -269,6 +295,8 @@ func (t *traceRig) shutdown(ctx context.Context) {
 	_ = t.wireExp.Shutdown(ctx)
 	_ = t.httpExp.Shutdown(ctx)
 	_ = t.grpcExp.Shutdown(ctx)
+	_ = t.httpExpZ.Shutdown(ctx)
+	_ = t.grpcExpZ.Shutdown(ctx)
 }
 
 func flattenTraceReqs(reqs []*coltracepb.ExportTraceServiceRequest) []*tracepb.ResourceSpans {
@@ -280,7 +308,7 @@ func flattenTraceReqs(reqs []*coltracepb.ExportTraceServiceRequest) []*tracepb.R
 }
 
 // runTraceBatch exports one batch through the three routes and adds the case.
-func runTraceBatch(ctx context.Context, w *vgen.Writer, t *traceRig, b spanBatch, kind string) {
+func runTraceBatch(ctx context.Context, w *vgen.Writer, t *traceRig, b spanBatch, kind string, gz bool) {
 	snaps := b.stubs.Snapshots()
 	pos := map[string]int{}
 	for i, sd := range snaps {
@@ -297,10 +325,30 @@ func runTraceBatch(ctx context.Context, w *vgen.Writer, t *traceRig, b spanBatch
 	}
 	desc["items"] = names
 
+	export := snaps
+	if len(b.nils) > 0 {
+		export = append([]tracesdk.ReadOnlySpan(nil), snaps...)
+		for _, p := range b.nils {
+			if p > len(export) {
+				p = len(export)
+			}
+			export = append(export[:p], append([]tracesdk.ReadOnlySpan{nil}, export[p:]...)...)
+		}
+		w.Tally("traces:shape:nil-span-in-batch")
+		desc["nil_spans_at"] = b.nils
+	}
+	if len(snaps) == 0 {
+		w.Tally("traces:shape:empty-batch")
+	}
 	t.wire.got, t.wire.err = nil, nil
-	errW := t.wireExp.ExportSpans(ctx, snaps)
-	errH := exportTo(&t.httpC.sink, func() error { return t.httpExp.ExportSpans(ctx, snaps) })
-	errG := exportTo(&t.grpcC.sink, func() error { return t.grpcExp.ExportSpans(ctx, snaps) })
+	errW := t.wireExp.ExportSpans(ctx, export)
+	he, ge := t.httpExp, t.grpcExp
+	if gz {
+		he, ge = t.httpExpZ, t.grpcExpZ
+		w.Tally("traces:route:gzip+endpoint-url")
+	}
+	errH := exportTo(&t.httpC.sink, func() error { return he.ExportSpans(ctx, export) })
+	errG := exportTo(&t.grpcC.sink, func() error { return ge.ExportSpans(ctx, export) })
 	if errW != nil || errH != nil || errG != nil {
 		desc["export_errors"] = fmt.Sprint(errW, " | ", errH, " | ", errG)
 	}
@@ -367,7 +415,7 @@ func runTraceBatch(ctx context.Context, w *vgen.Writer, t *traceRig, b spanBatch
 	if b.nilRes {
 		w.Tally("traces:shape:nil-resource")
 	}
-	w.Add(term, desc, kind, len(snaps) > 1 || len(snaps[0].Attributes()) > 0)
+	w.Add(term, desc, kind, len(snaps) > 1 || (len(snaps) == 1 && len(snaps[0].Attributes()) > 0))
 }
 
 // traceCorpus: fixed regression inputs, run first on every run.
@@ -403,6 +451,11 @@ func traceCorpus() []spanBatch {
 	out = append(out, spanBatch{stubs: tracetest.SpanStubs{mk(1, "a", res1, scA), mk(2, "v", res1, scV), mk(3, "u", res1, scU), mk(4, "t1", res1, scT1),
 		mk(5, "t2", res1, scT2), mk(6, "b", res1, scB), mk(7, "t1'", res1, scT1), mk(8, "a'", res1, scA)},
 		resources: []*resource.Resource{res1}, scopes: []instrumentation.Scope{scA, scV, scU, scT1, scT2, scB}, ri: []int{0, 0, 0, 0, 0, 0, 0, 0}, si: []int{0, 1, 2, 3, 4, 5, 3, 0}})
+	// exporter-level paths: an empty batch, a batch of nil spans only (nothing to upload), nil spans between real ones
+	out = append(out, spanBatch{})
+	out = append(out, spanBatch{nils: []int{0, 0}})
+	out = append(out, spanBatch{stubs: tracetest.SpanStubs{mk(1, "s1", res1, scA), mk(2, "s2", res3, scA), mk(3, "s3", res1, scA)},
+		resources: []*resource.Resource{res1, res3}, scopes: []instrumentation.Scope{scA}, ri: []int{0, 1, 0}, si: []int{0, 0, 0}, nils: []int{0, 2, 5}})
 	// status table, parent, dropped-count clamps
 	a := mk(1, "err", res3, instrumentation.Scope{})
 	a.Status = tracesdk.Status{Code: codes.Error, Description: "boom"}
